@@ -46,6 +46,8 @@
 #include <time.h>
 #include <unistd.h>
 #include <sys/resource.h>
+#include <netdb.h>
+#include <sys/socket.h>
 
 #include "config.h"
 #include "src/common/hostlist.h"
@@ -133,6 +135,9 @@ static long inline_run, spin_limit = 200000;
 static int reltime;             /* script times relative to the host's own connectBegin / connectEnd */
 static int createfail = -1;     /* `createfail i`: the FIRST pthread_create for worker i fails with EAGAIN (default: none) */
 static long nofile;             /* `nofile N`: RLIMIT_NOFILE (soft = hard = N) while dsh() runs (default: untouched) */
+static long nofile_soft = -1;   /* `nofile_soft N`: with `nofile H`: soft = N, hard = H (the prologue of dsh() may raise it) */
+static int *fanout_in_use;      /* &opt.fanout: what dsh() left there (reported on the L line) */
+static struct rlimit rl_at_call;/* RLIMIT_NOFILE when dsh() was called */
 static long nsteps_spurious;
 
 /* ------------------------------------------------------------------ utilities */
@@ -403,12 +408,19 @@ static void finish(const char *status, int code)
         fprintf(stdout, " %s:%lx", sites[i].kind, (unsigned long) ((char *) sites[i].ret - &__executable_start));
     fprintf(stdout, "\n");
     fprintf(stdout, "C %s\n", taken ? taken : "");
+    if (fanout_in_use) {        /* the prologue of dsh() as a function: fanout and descriptor limit before / after */
+        struct rlimit rl = { 0, 0 };
+        getrlimit(RLIMIT_NOFILE, &rl);
+        fprintf(stdout, "L fanout_used=%d soft0=%lu hard0=%lu soft=%lu\n", *fanout_in_use,
+                (unsigned long) rl_at_call.rlim_cur, (unsigned long) rl_at_call.rlim_max, (unsigned long) rl.rlim_cur);
+    }
     fprintf(stdout, "M status=%s code=%d fanout=%d n=%d peak=%d peak_step=%d early=%d steps=%ld spurious=%ld "
             "diverged=%d tc=%d clock=%ld connects=", status, code, fanout, nvhosts, peak, peak_step,
             early_return, step_no, nsteps_spurious, diverged, verif_threadcount(), vclock);
     for (i = 0; i < nvhosts; i++) fprintf(stdout, "%s%d", i ? "," : "", vhosts[i].nbegin);
     fprintf(stdout, " destroys=");
     for (i = 0; i < nvhosts; i++) fprintf(stdout, "%s%d", i ? "," : "", vhosts[i].ndend);
+    if (stub_resolve) fprintf(stdout, " wrongaddr=%d", stub_wrong_addr);
     fprintf(stdout, " alive=");
     for (i = 0; i < nth; i++) if (th[i].alive) fprintf(stdout, "%s,", th[i].name);
     fprintf(stdout, "\n");
@@ -997,7 +1009,32 @@ int __wrap_pthread_mutex_lock(pthread_mutex_t *m)
 int __wrap_pthread_mutex_unlock(pthread_mutex_t *m)
 {
     struct op o = { .kind = OP_UNLOCK, .cls = mutex_of(m)->cls, .obj = m };
-    return (int) sched_do(o)->ret;
+    int rc = (int) sched_do(o)->ret;
+    if (stub_resolve && o.cls == Y_MISC && self && self->alive) {
+        /* `resolve 1`: a thread may be preempted right after it has dropped a mutex, before it touches what the mutex
+         * protected (e.g. the resolver's static buffer): one more scheduling point of class `misc` */
+        struct op y = { .kind = OP_MEM, .cls = Y_MISC, .a = 0 };
+        sched_do(y);
+    }
+    return rc;
+}
+/* the resolver of the harness: like libc's, ONE static result buffer that every call overwrites */
+struct hostent *__wrap_gethostbyname(const char *name)
+{
+    static struct hostent he;
+    static unsigned char abuf[4];
+    static char *alist[2];
+    static char hname[128];
+    int i;
+    for (i = 0; i < nvhosts; i++)
+        if (strcmp(vhosts[i].name, name) == 0)
+            break;
+    if (i >= nvhosts) return NULL;
+    stub_addr_of(i, abuf);
+    snprintf(hname, sizeof hname, "%s", name);
+    alist[0] = (char *) abuf; alist[1] = NULL;
+    he.h_name = hname; he.h_aliases = alist + 1; he.h_addrtype = AF_INET; he.h_length = 4; he.h_addr_list = alist;
+    return &he;
 }
 int __wrap_pthread_cond_wait(pthread_cond_t *c, pthread_mutex_t *m)
 {
@@ -1216,6 +1253,8 @@ int main(int argc, char **argv)
         else if (!strcmp(k, "reltime")) reltime = atoi(v);
         else if (!strcmp(k, "createfail")) createfail = atoi(v);
         else if (!strcmp(k, "nofile")) nofile = atol(v);
+        else if (!strcmp(k, "nofile_soft")) nofile_soft = atol(v);
+        else if (!strcmp(k, "resolve")) stub_resolve = atoi(v);
         else if (!strcmp(k, "connerr")) stub_connerr = atoi(v);
         else if (!strcmp(k, "lowfds")) { int m = atoi(v), b; for (b = 0; b < 3; b++) low_owner[b] = (m >> b) & 1 ? -1 : -2; }
         else if (!strcmp(k, "seed")) { rng = 88172645463325252ULL ^ ((uint64_t) atoll(v) * 0x9e3779b97f4a7c15ULL); if (!rng) rng = 1; rnd(); rnd(); }
@@ -1305,9 +1344,12 @@ int main(int argc, char **argv)
     fprintf(stdout, "H fanout=%d n=%d yield=%d\n", opt.fanout, nvhosts, yield_mask);
     if (nofile > 0) {           /* a tight descriptor limit: dsh() must not let it change what the fanout means */
         struct rlimit rl = { (rlim_t) nofile, (rlim_t) nofile };
+        if (nofile_soft >= 0 && nofile_soft < nofile) rl.rlim_cur = (rlim_t) nofile_soft;
         __real_fflush(stdout);
         setrlimit(RLIMIT_NOFILE, &rl);
     }
+    getrlimit(RLIMIT_NOFILE, &rl_at_call);
+    fanout_in_use = &opt.fanout;
 
     rc = dsh(&opt);
 
